@@ -51,6 +51,31 @@ func (g *Gen) stress() []L.Stmt {
 		// table constructor crossing the set-list flush boundaries (50 per batch)
 		n := []int{49, 50, 51, 99, 100, 101, 150, 257}[g.n(8, "nfields")]
 		g.class("stress_setlist")
+		if g.pct(6, "hugesetlist") {
+			// beyond 511 batches the batch number moves into an extension word; the constructor is an operand in a
+			// function without locals and parameters
+			hn := []int{25549, 25550, 25551, 25599, 25600, 25601, 25651}[g.n(7, "hugefields")]
+			g.class("stress_setlist_extension_word")
+			mk := func() *L.TableExpr {
+				h := tbl()
+				for i := 1; i <= hn; i++ {
+					h.Fields = append(h.Fields, pos(num(float64(i))))
+				}
+				return h
+			}
+			var e L.Expr
+			switch g.n(4, "hugeuse") {
+			case 0:
+				e = un("#", mk())
+			case 1:
+				e = idx(paren(mk()), num(float64(hn-1)))
+			case 2:
+				e = bin("==", num(1), mk())
+			default:
+				e = un("#", paren(bin("and", &L.TrueExpr{}, mk())))
+			}
+			ss = append(ss, emit(call(paren(fn(nil, false, blk(ret(e)))))))
+		}
 		t := tbl()
 		for i := 1; i <= n; i++ {
 			t.Fields = append(t.Fields, pos(num(float64(i*2))))
